@@ -101,7 +101,14 @@ func MakeReceptorSAN(dnsNames []string, ipAddresses []net.IP, nodeIDs []string) 
 		if err != nil {
 			return nil, err
 		}
-		rawValues = append(rawValues, asn1.RawValue{Tag: 0, Class: 2, IsCompound: true, Bytes: asnOtherName[2:]})
+		// Re-tag the OtherName SEQUENCE as [0]: keep its content octets, whatever the length of its
+		// header (two octets only while the content is shorter than 128 bytes).
+		var otherName asn1.RawValue
+		_, err = asn1.Unmarshal(asnOtherName, &otherName)
+		if err != nil {
+			return nil, err
+		}
+		rawValues = append(rawValues, asn1.RawValue{Tag: 0, Class: 2, IsCompound: true, Bytes: otherName.Bytes})
 	}
 	sanBytes, err := asn1.Marshal(rawValues)
 	if err != nil {
